@@ -13,6 +13,7 @@ META = {
         "back to that variant, and unknown tags end in Err; R4 tainted length arithmetic: a 64-bit length read from the wire never enters an "
         "unchecked +,* or - nor a split/advance length without a dominating bound (a corrupt length must give an error, not a panic); "
         "R5 panic audit of the decode bodies; R6 discard accounting: when a decoder drops the buffered part of a body it measures the dropped size before clearing the buffer; R7 bytes split off for the following frames are put back on every exit; R8 a delegating decoder waits for a header only at a frame boundary; R9 a size test against a length read through a peek cursor is made on the cursor or adds the peeked header size; R10 abandoning a frame on an error skips every outstanding part recorded in the state; R11 whole-frame decoders consume the frame before validating it; R12 an exhausted body length without a result is an error. R13 a decoder that takes its state out of `self` puts a state back before it asks for more input."
+        " R14 (= C09.R3b) the incremental Recon parser never decides a token before its end is in sight; R15 consume_bounded always consults the inner decoder and ends a complete body with decode_eof; R16 fixed-width reads after a size test take no more than the test established (walk under constant propagation with byte accounting); R17 what consume_bounded took is written into the decoder's state on every way out; R18 RecognizerDecoder resets after every finished result, value or error; R4 also in its path form (a lower bound established through a kept comparison)."
 ),
     "does_not_decide": "equality of decoded and encoded messages for all values (bodies are Recon, C09); silently wrong messages produced by mutated valid streams inside a body",
 }
